@@ -214,7 +214,7 @@ def ch_e2e(ctx) -> Channel:
     now = datetime.datetime(2023, 5, 1, 12, 0, 3, tzinfo=datetime.timezone.utc)
     temps = vod_templates()
     cases = []
-    for stream in ("bbb", "tears", "syn1", "syn2"):
+    for stream in ("bbb", "tears", "syn1", "syn2", "syn3"):
         for name, mode in temps:
             opts = []
             if rng.random() < .5 and mode == "vod":
